@@ -99,6 +99,7 @@ def build(tier, seed):
     # the caller's array edited IN PLACE between two calls of the power-law functions (same object, other content)
     cases += [['R', w, 0] for w in pw if len(w) <= 4 and TINY not in w]
     return {
+        'rule_more': "'L': zigzag records with 513 .. 5001 turning points, 8 per pool case in two orders x 3 variants; 'R': the four power-law functions on one array object edited in place between calls (4 edits) vs the same call on a private copy",
         'cases': cases,
         'rule': "'L': zigzag records with 513 .. 5001 turning points, several in one pool case in two orders; 'R': power-law functions on one array object before and after it was edited in place (x -= c, x[...] = reversed); 'd': all non-constant words over {0..3} of length 2..%d and over the wide-range alphabet %s of length 2..%d "
                 "x {float64, int64, list} x offsets {0,+5,-2.5} + the float record scaled by %g "
